@@ -96,4 +96,26 @@ MoveAllowedBy(lst, was, now) ==
       [] lst[1] = "del" -> was = lst[2]
       [] lst[1] = "upd" -> lst[2] # lst[3] /\ (was = lst[2] \/ now = lst[3])
       [] OTHER -> FALSE
+------------------------------------------------------------------------------
+(* From a destination address to carbon's (server, instance) pair (carbon.util.parseDestination), over sequences of  *)
+(* one-character strings: "server:port", "server:port:instance", and for an IPv6 server "[server]:port" and          *)
+(* "[server]:port:instance"; a bare "server" has no port.  The ring hashes the server WITHOUT brackets and port.      *)
+FirstIdx(a, c, from) == IF \E i \in from..Len(a) : a[i] = c
+                        THEN CHOOSE i \in from..Len(a) : a[i] = c /\ \A j \in from..(i - 1) : a[j] # c ELSE 0
+Bracketed(a) == Len(a) > 0 /\ a[1] = "[" /\ FirstIdx(a, "]", 1) > 0
+ServerOf(a) == IF Bracketed(a) THEN SubSeq(a, 2, FirstIdx(a, "]", 1) - 1)
+               ELSE IF FirstIdx(a, ":", 1) = 0 THEN a ELSE SubSeq(a, 1, FirstIdx(a, ":", 1) - 1)
+\* what follows the server: ":port" or ":port:instance" (or nothing)
+AfterServer(a) == IF Bracketed(a) THEN SubSeq(a, FirstIdx(a, "]", 1) + 1, Len(a))
+                  ELSE IF FirstIdx(a, ":", 1) = 0 THEN <<>> ELSE SubSeq(a, FirstIdx(a, ":", 1), Len(a))
+InstanceOf(a) == LET r == AfterServer(a)
+                     k == IF Len(r) >= 2 THEN FirstIdx(r, ":", 2) ELSE 0
+                 IN  IF k = 0 THEN <<>> ELSE SubSeq(r, k + 1, Len(r))          \* <<>> = None
+Chars(str) == str          \* (examples below are written as tuples of characters)
+ASSUME /\ ServerOf(<<"h", ":", "2", ":", "a">>) = <<"h">> /\ InstanceOf(<<"h", ":", "2", ":", "a">>) = <<"a">>
+       /\ ServerOf(<<"h">>) = <<"h">> /\ InstanceOf(<<"h">>) = <<>> /\ InstanceOf(<<"h", ":", "2">>) = <<>>
+       /\ ServerOf(<<"[", ":", ":", "1", "]", ":", "2">>) = <<":", ":", "1">>
+       /\ InstanceOf(<<"[", ":", ":", "1", "]", ":", "2">>) = <<>>
+       /\ InstanceOf(<<"[", ":", ":", "1", "]", ":", "2", ":", "b">>) = <<"b">>
+       /\ ServerOf(<<"[", ":", ":", "1", "]", ":", "2", ":", "b">>) = <<":", ":", "1">>
 =============================================================================
